@@ -58,6 +58,27 @@ def run(tier, corrupt=False):
                     meta.append((r, "constructed from bytearray"))
                 cases.append({"kind": "mut", "prog": r["prog"], "from_bytes": r["bytes"], "actions": [a for a in acts if a["op"] != "mutate_arg"]})
                 meta.append((r, "deserialized"))
+            # instances whose serialization is REFUSED (case data left None) must not be changed by the attempt either
+            seen_variants = set()
+            for r in kept:
+                def none_variants(o, path=()):
+                    for k_, v_ in o.items():
+                        if isinstance(v_, dict):
+                            if k_.endswith("_data"):
+                                yield path + (k_,)
+                            yield from none_variants(v_, path + (k_,))
+                for pth in none_variants(r["obj"]):
+                    o2 = json.loads(json.dumps(r["obj"]))
+                    cur = o2
+                    for k_ in pth[:-1]:
+                        cur = cur[k_]
+                    cur[pth[-1]] = "None"
+                    sig = json.dumps(o2, sort_keys=True)
+                    if sig in seen_variants:
+                        continue
+                    seen_variants.add(sig)
+                    cases.append({"kind": "mut", "prog": r["prog"], "obj": o2, "salt": 0, "actions": [{"op": "serialize", "path": [], "name": "", "how": ""}]})
+                    meta.append((dict(r, obj=o2), "constructed, case data " + ".".join(pth) + " left None"))
             imp, results = run_drivers_parallel(src, wt, accepted, types, cases)
             if imp:
                 v.violation("generated package not importable", imp.strip().splitlines()[-1], {"trace": imp})
